@@ -1,177 +1,9 @@
 //@file anchor=lorawan-device/src/async_device/mod.rs cfg=feature="region-eu868"
 // C06-H3 / C04-H7 / C07-H4 / C10-H4: the async front-end with the MAC replaced by contract
 // stubs (ghost counter), a radio that fails at a symbolic call position, and an immediate timer.
+// (infrastructure: async_common.rs)
 use super::*;
-use core::future::Future;
-use core::pin::pin;
-use core::task::{Context, Poll, Waker};
-
-/// Every harness static carries a unique tag: Kani resolves a *constant* whose bytes equal a
-/// static's initial bytes to that static (rustc interns allocations by content), so writing to a
-/// `static mut FLAG: bool = false` silently changed constants such as `DR::_0` in the code under
-/// test (found on macs_r0_linkadr2, see DESIGN 9.4).  Unique initial content rules this out.
-#[repr(C)]
-pub(crate) struct Uq<T> {
-    pub magic: u64,
-    pub v: T,
-}
-
-// ---- ghost state of the MAC contract (DESIGN 2.4: exactly the facts proved by the MAC harnesses)
-static mut G_FCNT: Uq<u32> = Uq { magic: 0x6C727600B8A9E6BE, v: 0 }; // the session's FCntUp
-static mut G_BUILT: Uq<u32> = Uq { magic: 0x6C72760095C36D52, v: 0 }; // number of frames built by Mac::send
-static mut G_BUILT_FCNT: Uq<u32> = Uq { magic: 0x6C727600A67E892A, v: 0 }; // counter the last frame was built with
-static mut G_RX_CALLS: Uq<u32> = Uq { magic: 0x6C727600B81D504B, v: 0 };
-static mut G_EXPIRED_REPORTED: Uq<bool> = Uq { magic: 0x6C7276000ED10A21, v: false };
-
-fn any_rf() -> RfConfig {
-    RfConfig {
-        frequency: kani::any(),
-        bb: lora_modulation::BaseBandModulationParams::new(
-            lora_modulation::SpreadingFactor::_7, lora_modulation::Bandwidth::_125KHz, lora_modulation::CodingRate::_4_5),
-        max_payload_len: kani::any(),
-    }
-}
-
-/// contract of Mac::send for a joined device (proved by prepare_* / tx_* harnesses): the frame is
-/// built with the current counter, the counter is not consumed
-fn stub_send<RNG: RngCore, const N: usize>(
-    _m: &mut Mac,
-    _rng: &mut RNG,
-    _buf: &mut RadioBuffer<N>,
-    _d: &SendData<'_>,
-) -> mac::Result<(radio::TxConfig, mac::RxWindows, mac::FcntUp)> {
-    unsafe {
-        G_BUILT.v += 1;
-        G_BUILT_FCNT.v = G_FCNT.v;
-        Ok((radio::TxConfig { pw: kani::any(), rf: any_rf() }, mac::RxWindows { rx1: any_rf(), rx2: any_rf() }, G_FCNT.v))
-    }
-}
-/// contract of Mac::handle_rx in the Joined state (proved by rx_* harnesses): either nothing
-/// changes (NoUpdate), or the frame is accepted and the counter advances by one, or the counter
-/// space is exhausted and SessionExpired is reported without wrapping
-fn stub_handle_rx<const N: usize, const D: usize>(
-    _m: &mut Mac,
-    _buf: &mut RadioBuffer<N>,
-    _dl: &mut Vec<Downlink, D>,
-    _snr: i8,
-    _rf: &RfConfig,
-) -> mac::Response {
-    unsafe {
-        G_RX_CALLS.v += 1;
-        if kani::any() {
-            mac::Response::NoUpdate
-        } else if G_FCNT.v == u32::MAX {
-            mac::Response::SessionExpired
-        } else {
-            G_FCNT.v += 1;
-            mac::Response::DownlinkReceived(kani::any())
-        }
-    }
-}
-/// contract of Mac::rx2_complete in the Joined state (proved by rx2_complete_step_*)
-fn stub_rx2_complete(_m: &mut Mac) -> mac::Response {
-    unsafe {
-        if G_FCNT.v == u32::MAX {
-            mac::Response::SessionExpired
-        } else {
-            G_FCNT.v += 1;
-            if kani::any() { mac::Response::NoAck } else { mac::Response::RxComplete }
-        }
-    }
-}
-fn stub_get_rx_delay(_m: &Mac, _f: &Frame, w: &Window) -> u32 {
-    let d: u32 = kani::any();
-    kani::assume(d >= 1000 && d <= 15000);
-    match w {
-        Window::_1 => d,
-        Window::_2 => d + 1000,
-    }
-}
-fn stub_get_fcnt_up(_m: &Mac) -> Option<mac::FcntUp> {
-    unsafe { Some(G_FCNT.v) }
-}
-
-// ---- radio / timer models ------------------------------------------------------------------------
-struct MRadio {
-    calls: usize,
-    fail_at: usize,
-    tx_calls: usize,
-    tx_ok: usize,
-}
-impl MRadio {
-    fn step(&mut self) -> Result<(), ()> {
-        let k = self.calls;
-        self.calls += 1;
-        if k == self.fail_at { Err(()) } else { Ok(()) }
-    }
-}
-impl radio::PhyRxTx for MRadio {
-    type PhyError = ();
-    const MAX_RADIO_POWER: u8 = 20;
-    async fn tx(&mut self, _config: radio::TxConfig, _buf: &[u8]) -> Result<u32, ()> {
-        self.tx_calls += 1;
-        self.step()?;
-        self.tx_ok += 1;
-        let ms: u32 = kani::any();
-        kani::assume(ms < 0x7FFF_0000);
-        Ok(ms)
-    }
-    async fn setup_rx(&mut self, _config: radio::RxConfig) -> Result<(), ()> {
-        self.step()
-    }
-    async fn rx_continuous(&mut self, _rx_buf: &mut [u8]) -> Result<(usize, radio::RxQuality), ()> {
-        self.step()?;
-        let n: usize = kani::any();
-        kani::assume(n <= 255);
-        Ok((n, radio::RxQuality::new(kani::any(), kani::any())))
-    }
-    async fn rx_single(&mut self, _buf: &mut [u8]) -> Result<radio::RxStatus, ()> {
-        self.step()?;
-        if kani::any() {
-            let n: usize = kani::any();
-            kani::assume(n <= 255);
-            Ok(radio::RxStatus::Rx(n, radio::RxQuality::new(kani::any(), kani::any())))
-        } else {
-            Ok(radio::RxStatus::RxTimeout)
-        }
-    }
-    async fn low_power(&mut self) -> Result<(), ()> {
-        self.step()
-    }
-}
-impl Timings for MRadio {
-    fn get_rx_window_lead_time_ms(&self) -> u32 {
-        let l: u32 = kani::any();
-        kani::assume(l <= 1000);
-        l
-    }
-}
-struct MTimer;
-impl radio::Timer for MTimer {
-    fn reset(&mut self) {}
-    async fn at(&mut self, _millis: u64) {}
-    async fn delay_ms(&mut self, _millis: u64) {}
-}
-struct NoRng;
-impl RngCore for NoRng {
-    fn next_u32(&mut self) -> u32 { kani::any() }
-    fn next_u64(&mut self) -> u64 { kani::any() }
-    fn fill_bytes(&mut self, _d: &mut [u8]) {}
-    fn try_fill_bytes(&mut self, _d: &mut [u8]) -> core::result::Result<(), rand_core::Error> { Ok(()) }
-}
-
-fn block_on<F: Future>(f: F) -> F::Output {
-    let mut f = pin!(f);
-    let w = Waker::noop();
-    let mut cx = Context::from_waker(&w);
-    match f.as_mut().poll(&mut cx) {
-        Poll::Ready(v) => v,
-        Poll::Pending => {
-            kani::assume(false);
-            unreachable!()
-        }
-    }
-}
+use super::verif_kani_lorawan_device_async_common::*;
 
 //@h id=async_send_faults props=C06,C04 tier=quick build=dev-eu868-noc cost=150 timeout=1800
 //@bounds one Device::send on a joined Class A device from an arbitrary uplink counter (all 2^32 values), a radio fault at an arbitrary call position (tx, low_power, setup_rx x2, rx_single x2, or none), arbitrary receive outcomes (timeout / any frame the MAC accepts or rejects, up to the repeated-NoUpdate bound of the unwinding), arbitrary lead time <= 1000 ms and TX timestamps < 2^31
